@@ -16,6 +16,14 @@ CHECKS = {
    text="Bounded model checking of consumer lifecycles through the real dispatcher (MIR): every history of K symbolic frames over {ConsumeOk, Deliver + empty header, server Cancel (nowait or not), CancelOk, Channel.Close/CloseOk, Connection.Close/CloseOk} and every prefix of it; the consumer's queue must be the deliveries addressed to its tag while registered (in order, fields intact) followed by exactly one terminal message naming the true cause, after which it is disconnected; server cancel answered with CancelOk iff !nowait; consumers created during the history obey the same shape.",
    note="History length K (evidence.bounds), one pre-registered consumer plus those created by ConsumeOk; callers take replies as they arrive (synchronous calls); Consumer::cancel idempotence / Drop are API-side. Native replay by observation equality.",
    ref="DESIGN.md §4 C11"),
+ 'C15': dict(
+   text="make_tune_ok is decided for all 2^128 (client options, server Tune) combinations at once from its MIR (bit-vector SMT), against the documented min / 0-means-unlimited / heartbeat-min / 4096-floor table; the Tune arm of the handshake state machine is executed for a fully symbolic frame (TuneOk with the negotiated values then Open(vhost) pushed iff negotiation succeeds, heartbeats started with TuneOk.heartbeat and not at all for 0, nothing sent on FrameMaxTooSmall); Channel0Handle::new turns the announced frame_max into the payload limit frame_max-8. Thorough tier: Kani/CBMC re-decides the make_tune_ok kernel independently.",
+   note="Obeying the values afterwards is split: channel id limit = C10 (set_channel_max feeds the same table), frame splitting = C02, heartbeat timing = C17; thread_main wiring (TuneOk.channel_max -> set_channel_max, frame_max -> Channel0Handle::new) is read from MIR call sites in those checks' harnesses, not executed end to end.",
+   ref="DESIGN.md §4 C15"),
+ 'C16': dict(
+   text="Bounded model checking of the handshake from MIR: one step of HandshakeState::process from every state (Start for PLAIN/EXTERNAL with/without information, Secure, Open, ServerClosing, Done; Tune in C15) over a fully symbolic frame against the specified transition/emission table including StartOk's mechanism, response (format template and arguments), locale and client-properties table; run_amqp_handshake's result mapping over every reachable (final state, loop error) exit with the poll loop stubbed; wait_for_amqp_handshake's mapping with the join stubbed. Mapping counterexamples are replayed end to end against Connection::insecure_open with a scripted broker over loopback TCP.",
+   note="server_supports (split on space + compare) is an uninterpreted predicate; the poll loop itself (timeouts, cuts of the stream) is a stub enumerating exits, so 'every cut of the stream' is represented by the error each cut produces (C06 for decoding); never-hangs is not decided.",
+   ref="DESIGN.md §4 C16"),
  'C07': dict(
    text="Bounded model checking of one step of the real frame dispatcher (ConnectionState::process with the collector, routing and client-exception code it calls, from MIR) from every collector state of a two-channel Steady connection over a fully symbolic AMQPFrame (every arm, every channel id, every field value), against a complete outcome table (which error / client exception / Ok each (state, frame) pair must produce) and effect conditions (nothing delivered on a violation, Connection.Close with the matching hard-error code as last frame, sealed buffer, later frames ignored).",
    note="One step per state family, not arbitrary-length sequences: longer sequences are covered only through the state families (collector states None/Start/Body per kind, ClientException). Two open channels, one consumer each; reply/consumer receivers alive; HashMap as association list, crossbeam queues, Vec<u8> lengths and amq-protocol frame generators are summaries; frame bytes themselves (parsing) are C06.",
